@@ -179,9 +179,14 @@ struct Reporter {
   void maxi(const std::string& k, u64 v) { if (mx[k] < v) mx[k] = v; }
   void sample(const std::string& s, size_t cap = 4) { if (samples.size() < cap) samples.push_back(s); }
   void outcome(u64 h) { if (outcomes.size() < 4000000) outcomes.insert(h); }
+  // every violation is counted (nviol, viol_<tag>); at most 3000 per (property, tag) are listed per shard so that a
+  // flood under one tag can neither hide another tag nor exhaust memory in the driver
+  std::map<std::string, u64> listed_per_tag;
   void violation(const std::string& prop, const std::string& key, const std::string& tag, const std::string& detail) {
-    ++nviol;
-    if (viols.size() < 200000) viols.push_back({prop, key, tag, viols.size() < 40 ? detail : std::string()});
+    ++nviol; ctr["viol_" + prop + "_" + tag]++;
+    u64& n = listed_per_tag[prop + "/" + tag];
+    if (n < 3000) { ++n; viols.push_back({prop, key, tag, n <= 8 ? detail : std::string()}); }
+    else ctr["violations_counted_but_not_listed_" + prop + "_" + tag]++;
   }
   // this shard owns index i of the outermost enumeration?
   bool mine(u64 i) const { return (int)(i % (u64)args.nshards) == args.shard; }
